@@ -125,6 +125,35 @@ func orderScenarios(tier string) []clustermc.Scenario {
 			}
 		}
 	}
+	// bounded per-queue job depth with MORE jobs than the bound: which entry a full heap drops depends on
+	// where the entries sit in the heap, i.e. on the order in which the jobs were pushed (map iteration:
+	// seeds) and on every priority / creation sequence of 5-6 jobs
+	var deepCfgs []schedrun.Config
+	for _, depth := range []int{3, 4} {
+		for s := 0; s < 6; s++ {
+			deepCfgs = append(deepCfgs, schedrun.Config{QueueDepth: map[string]int{"allocate": depth}, MapSeed: uint64(s)})
+		}
+	}
+	nMax := 5
+	if tier == "thorough" {
+		nMax = 6
+	}
+	for n := 5; n <= nMax; n++ {
+		for code := 0; code < 1<<n; code++ {
+			seq := make([]string, n)
+			for i := 0; i < n; i++ {
+				seq[i] = []string{"p50", "p75"}[(code>>i)&1]
+			}
+			b := world.NewBuilder()
+			// room for every job the bounded queue keeps: the one it dropped is the only one left unplaced
+			b.Node(world.NodeOpt{Name: "n1", CPU: "16", Mem: "32Gi", GPUs: 6, GPUMemMiB: 40000})
+			b.GQueue("qa", "", 1, -1, 1).GQueue("qb", "", 1, -1, 1).GQueue("qc", "", 1, -1, 1)
+			for i, pc := range seq {
+				b.Workload(world.WL{Name: fmt.Sprintf("c%d", i), Queue: "qa", PC: pc, Pods: pods(1, shG1, "", "")})
+			}
+			out = append(out, clustermc.Scenario{Name: fmt.Sprintf("deep-queue:1n-6gpu/flat:g1-pre%v", seq), World: b.Done(), Configs: deepCfgs})
+		}
+	}
 	return out
 }
 
